@@ -159,7 +159,7 @@ Definition cut_of (p : str) : nat := match find_first_sep p with Some i => i | N
 Definition nd_pat (lk : left_kind) (rp : bool) (pattern : str) : bool :=
   let p := lower_str pattern in
   negb (nullb p)
-  && no_backslash p && no_nl p && negb (has_double_caret p)
+  && no_nl p && negb (has_double_caret p)
   && negb (head_is STAR p) && negb (last_is STAR p)
   && negb (head_is SLASH p && last_is SLASH p && Nat.ltb 1 (length p))
   && negb (memN DOLLAR p)
